@@ -37,6 +37,7 @@ type (
 		Forall bool
 		Var    string
 		Lo, Hi SExpr
+		Keys   SExpr // non-nil: the variable ranges over the keys present in this map
 		Body   SExpr
 	}
 )
@@ -262,6 +263,12 @@ func (p *parser) expr() SExpr {
 			panic("'in' expected")
 		}
 		lo := p.add()
+		if c, ok := lo.(*SCall); ok && c.Fun == "keys" && len(c.Args) == 1 && p.isOp(":") {
+			// quantification over the keys present in a map: forall k in keys(m): body
+			p.expect(":")
+			body := p.expr()
+			return &SQuant{Forall: q == "forall", Var: v.s, Keys: c.Args[0], Body: body}
+		}
 		p.expect("..")
 		hi := p.add()
 		p.expect(":")
